@@ -161,9 +161,68 @@ def make_policy(desc, rng):
 # --------------------------------------------------------------------------
 
 
+FORMAT_POOL = {
+    "uuid": gen.UUIDS + ["nope", "123e4567-e89b-12d3-a456-42661417400", "", "123E4567E89B12D3A456426614174000"],
+    "date-time": gen.DATETIMES + ["nope", "2020-13-01T00:00:00Z", "1990-12-31T23:59:60Z", "2020-01-01", ""],
+    "sim-unregistered": ["a", "b", ""],
+}
+
+
+def _gen_format_case(rng, perm):
+    """Small, focused workload: format checking is where validation calls out
+    into code with process-global state of its own (registry, warnings
+    filters, third-party parsers); several threads check valid, invalid and
+    odd strings against one format."""
+    fmt = rng.choice(["uuid", "date-time", "date-time", "sim-unregistered"])
+    inner = {"k": "String", "kw": {"format": fmt}}
+    shape = rng.random()
+    if shape < 0.5:
+        root, wrap = inner, (lambda v: v)
+    elif shape < 0.75:
+        root, wrap = {"k": "Array", "kw": {"items": inner}}, (lambda v: [v])
+    else:
+        root = {"k": "Element", "kw": {"properties": {"t": {"el": inner, "required": False, "source": None}}}}
+        wrap = lambda v: {"t": v}
+    world = {"shared": {}, "classes": [], "root": root}
+    n_threads = rng.choice([2, 2, 3, 4])
+    pool = FORMAT_POOL[fmt]
+    few = rng.sample(pool, min(len(pool), rng.randint(2, 3)))
+    threads = [
+        [{"path": [], "arg": {"v": wrap(rng.choice(few))}} for _ in range(rng.choice([1, 2, 3]))]
+        for _ in range(n_threads)
+    ]
+    case = {
+        "prop": PROP,
+        "world": world,
+        "perm": perm,
+        "threads": threads,
+        "opcodes": rng.choice([False, False, "sites"]),
+        "first": rng.randrange(n_threads),
+        "policy": tprog_policy(rng, n_threads, 300),
+        "policy_seed": rng.getrandbits(48),
+        "format_focus": True,
+    }
+    sch = sched.Scheduler(
+        n_threads,
+        policy=make_policy(case["policy"], random.Random(case["policy_seed"])),
+        opcodes=case["opcodes"],
+    )
+    _run(case, sch, build(world))
+    case["segments"] = sch.segments
+    return case
+
+
+def tprog_policy(rng, n_threads, est):
+    from sim import tprog
+
+    return tprog.gen_policy(rng, n_threads, est)
+
+
 def gen_case(rng):
     perm = gen_perm(rng)
     install_validator_order(perm)
+    if rng.random() < 0.1:
+        return _gen_format_case(rng, perm)
     hot = rng.random() < 0.5
     if hot:
         # "hot shared model": one class with many stateful property kinds that
@@ -196,7 +255,12 @@ def gen_case(rng):
         if rng.random() < 0.6 and not any(a in ("fmt", "lst", "any") for a, _ in picks):
             picks.append(rng.choice([m for m in menu if m[0] in ("fmt", "lst", "any")]))
         for attr, spec in picks:
-            target["props"][attr] = {"el": spec, "required": rng.random() < 0.3, "source": None}
+            target["props"][attr] = {
+                "el": spec,
+                # format-bearing properties are usually present in the data
+                "required": rng.random() < (0.7 if attr in ("fmt", "lst", "any") else 0.3),
+                "source": None,
+            }
         if rng.random() < 0.5:
             # an untyped property: the place where arbitrarily nested data goes
             target["props"]["free"] = {"el": {"k": "Element", "kw": {}}, "required": False, "source": None}
@@ -431,6 +495,8 @@ def exec_case(case, log, stats):
         stats.inc("opcode_granularity_runs")
     if case.get("hot"):
         stats.inc("hot_shared_model_runs")
+    if case.get("format_focus"):
+        stats.inc("format_focus_runs")
     if case.get("wide"):
         stats.inc("wide_runs(hundreds of fresh property names)")
     if case.get("share_values"):
